@@ -754,7 +754,7 @@ class WLSim(object):
             self.pending_hook[kind] = keep
 
     def observed_glog_growth(self):
-        rows = self.read_new_rows("glog.txt", peek=True)
+        rows = [r for r in self.read_new_rows("glog.txt", peek=True) if numeric(r)]     # captions and headers are not growth
         return len(rows) > 0
 
     # --- disk vs model
